@@ -67,6 +67,9 @@ func registerVrt(p *Program) {
 			panic(pathEnd{"infeasible", "vrtChoose(0)"})
 		}
 		i := m.choose(n, "vrtChoose")
+		if m.model != nil {
+			m.model[v.t.Name] = uint64(i) // v is fresh: the patched model still satisfies pc
+		}
 		m.assume(m.ctx.Eq(v.t, m.ctx.BV(uint64(i), 64)))
 		return i
 	}
@@ -304,12 +307,29 @@ func registerSync(p *Program) {
 		}
 		return nil
 	}
-	// sync.Pool: Get always builds a fresh object, Put discards.
+	// sync.Pool modelled as LIFO reuse: Get returns the most recently Put
+	// object if there is one (the adversarial choice for stale-state bugs; the
+	// real pool may also drop objects, which only makes New() run).
+	type poolState struct{ items []value }
+	pool := func(m *Machine, p *value) *poolState {
+		if s, ok := m.sideState[p]; ok {
+			return s.(*poolState)
+		}
+		s := &poolState{}
+		m.sideState[p] = s
+		return s
+	}
 	ext["(*sync.Pool).Get"] = func(fr *frame, a []value) value {
-		pool := (*a[0].(*value)).(structure)
-		// field New is the last exported field; find a func-valued field
-		for i := len(pool) - 1; i >= 0; i-- {
-			switch f := pool[i].(type) {
+		p := fr.m.nonNil(a[0])
+		ps := pool(fr.m, p)
+		if n := len(ps.items); n > 0 {
+			it := ps.items[n-1]
+			ps.items = ps.items[:n-1]
+			return it
+		}
+		st := (*p).(structure)
+		for i := len(st) - 1; i >= 0; i-- {
+			switch f := st[i].(type) {
 			case *ssa.Function:
 				if f != nil {
 					return fr.m.call(fr, 0, f, nil)
@@ -320,7 +340,14 @@ func registerSync(p *Program) {
 		}
 		return iface{}
 	}
-	ext["(*sync.Pool).Put"] = func(fr *frame, a []value) value { return nil }
+	ext["(*sync.Pool).Put"] = func(fr *frame, a []value) value {
+		if it, ok := a[1].(iface); ok && it.t == nil {
+			return nil
+		}
+		ps := pool(fr.m, fr.m.nonNil(a[0]))
+		ps.items = append(ps.items, a[1])
+		return nil
+	}
 
 	// sync.Map as an association list in a side table
 	smap := func(m *Machine, p *value) *omap {
@@ -636,10 +663,10 @@ func registerMisc(p *Program) {
 	ext["math.Float32bits"] = func(fr *frame, a []value) value { return mathFloat32bits(a[0].(float32)) }
 	ext["math.Float64bits"] = func(fr *frame, a []value) value { return mathFloat64bits(a[0].(float64)) }
 	ext["math.Float32frombits"] = func(fr *frame, a []value) value {
-		return mathFloat32frombits(uint32(bitsOf(fr.m.concretize(a[0], "float-bits"))))
+		return mathFloat32frombits(uint32(bitsOf(fr.m.representative(a[0], "float bits"))))
 	}
 	ext["math.Float64frombits"] = func(fr *frame, a []value) value {
-		return mathFloat64frombits(bitsOf(fr.m.concretize(a[0], "float-bits")))
+		return mathFloat64frombits(bitsOf(fr.m.representative(a[0], "float bits")))
 	}
 
 	// uuid: fresh distinct tokens
@@ -749,7 +776,17 @@ func registerMisc(p *Program) {
 		if short == "SetDefault" {
 			return nop
 		}
-		return nil
+		if strings.ContainsAny(short, "$#(") {
+			return nil
+		}
+		// attribute constructors etc.: formatting is never the subject
+		return func(fr *frame, a []value) value {
+			res := fr.fn.Signature.Results()
+			if res.Len() == 0 {
+				return nil
+			}
+			return zero(res)
+		}
 	}})
 }
 
